@@ -2,6 +2,7 @@ import PrecondVerif.Model.BlockDiag
 import Mathlib.Algebra.Order.Field.Basic
 import Mathlib.Tactic.Ring
 import Mathlib.Tactic.Linarith
+import PrecondVerif.Lemmas.Tearfree
 
 /-
 Lemmas for property C08: a matrix routine written with sums and maxima over `[0,n)` does not see the zero padding.
@@ -609,5 +610,312 @@ theorem diagKernel_padOK [Field α] [LinearOrder α] [IsStrictOrderedRing α] (g
   · show g (N - 1 - k) = (if k < N - s then 0 else g (s - 1 - (k - (N - s))))
     rw [if_neg hk']
     congr 1; omega
+end PrecondVerif.BlockDiag
+
+/-! ## round 4: the eigh root is a function of the matrix (no hypothesis on WHICH decomposition the kernel returns) -/
+namespace PrecondVerif.BlockDiag
+open Matrix
+variable {α : Type} [Field α] [LinearOrder α] [IsStrictOrderedRing α]
+
+/-- the `n × n` window of a `Nat`-indexed matrix as a Mathlib matrix -/
+def toMat (n : Nat) (A : F α) : Matrix (Fin n) (Fin n) α := fun i j => A i.val j.val
+
+theorem sumTo_eq_sum (n : Nat) (f : Nat → α) : sumTo n f = ∑ k : Fin n, f k.val := by
+  induction n with
+  | zero => simp [sumTo]
+  | succ m ih => rw [sumTo_succ, ih, Fin.sum_univ_castSucc]; rfl
+
+/-- **a function of the matrix**: `V diag(f w) Vᵀ` does not depend on which eigendecomposition is used (any spectrum,
+repeated and zero eigenvalues included).  The argument of `Tearfree.rootOfEigh_unique` (C15) for an arbitrary `f`. -/
+theorem spectral_fn_unique {n : Nat} (f : α → α) (C V V' : Matrix (Fin n) (Fin n) α) (w w' : Fin n → α)
+    (hO : Vᵀ * V = 1) (hR : V * diagonal w * Vᵀ = C) (hO' : V'ᵀ * V' = 1) (hR' : V' * diagonal w' * V'ᵀ = C) :
+    V * diagonal (fun a => f (w a)) * Vᵀ = V' * diagonal (fun a => f (w' a)) * V'ᵀ := by
+  set Q := Vᵀ * V' with hQ
+  have hVVt : V * Vᵀ = 1 := mul_eq_one_comm.mp hO
+  have hVVt' : V' * V'ᵀ = 1 := mul_eq_one_comm.mp hO'
+  have hWQ : diagonal w * Q = Q * diagonal w' := by
+    have h1 : diagonal w * Q = Vᵀ * (V * diagonal w * Vᵀ) * V' := by
+      simp only [hQ, Matrix.mul_assoc]
+      rw [← Matrix.mul_assoc Vᵀ V, hO, Matrix.one_mul]
+    have h2 : Q * diagonal w' = Vᵀ * (V' * diagonal w' * V'ᵀ) * V' := by
+      simp only [hQ, Matrix.mul_assoc]
+      rw [hO', Matrix.mul_one]
+    rw [h1, h2, hR, hR']
+  have hent : ∀ a b, Q a b ≠ 0 → w a = w' b := by
+    intro a b hne
+    have := congrFun (congrFun hWQ a) b
+    rw [Matrix.diagonal_mul, Matrix.mul_diagonal] at this
+    have h3 : (w a - w' b) * Q a b = 0 := by rw [sub_mul, this, mul_comm]; ring
+    rcases mul_eq_zero.mp h3 with h | h
+    · exact sub_eq_zero.mp h
+    · exact absurd h hne
+  have hDQ : diagonal (fun a => f (w a)) * Q = Q * diagonal (fun b => f (w' b)) := by
+    ext a b
+    rw [Matrix.diagonal_mul, Matrix.mul_diagonal]
+    by_cases hne : Q a b = 0
+    · rw [hne]; ring
+    · rw [hent a b hne]; ring
+  calc V * diagonal (fun a => f (w a)) * Vᵀ
+      = V * diagonal (fun a => f (w a)) * Vᵀ * (V' * V'ᵀ) := by rw [hVVt', Matrix.mul_one]
+    _ = V * (diagonal (fun a => f (w a)) * Q) * V'ᵀ := by simp only [hQ, Matrix.mul_assoc]
+    _ = (V * Vᵀ) * V' * diagonal (fun b => f (w' b)) * V'ᵀ := by rw [hDQ]; simp only [hQ, Matrix.mul_assoc]
+    _ = _ := by rw [hVVt, Matrix.one_mul]
+
+/-- the `eigh` specification for the call `matrix_inverse_pth_root_eigh` makes on an `n × n` matrix `B` whose live block is
+`[0, s)²`: orthonormal eigenvectors, `U diag(e) Uᵀ = B`, and the `n - s` eigenvalues the code zeroes (`e *= flip(ix)`, the
+first ones) are the zero eigenvalues of the padding.  (LAPACK returns ascending eigenvalues; `B = blockdiag(R, 0)` with
+`R` = PSD statistic + ridge `> 0` positive definite has exactly `n - s` zero eigenvalues and `s` positive ones, so the
+first `n - s` are the zeros.) -/
+structure DsEighSpec (n s : Nat) (B U : F α) (e : Nat → α) : Prop where
+  ortho : (toMat n U)ᵀ * toMat n U = 1
+  recon : toMat n U * diagonal (fun k : Fin n => e k.val) * (toMat n U)ᵀ = toMat n B
+  dropped_zero : ∀ k, k < n - s → e k = 0
+
+/-- with the zero-eigenvalue rule (`inv_e = 0 where e == 0`) the positional mask is a function of the spectrum -/
+theorem eighValF_eq_matrix {n s : Nat} (invE : α → α) (h0 : invE 0 = 0) (U : F α) (e : Nat → α)
+    (hz : ∀ k, k < n - s → e k = 0) (i j : Fin n) :
+    eighValF n s invE U e i.val j.val
+      = (toMat n U * diagonal (fun k : Fin n => invE (e k.val)) * (toMat n U)ᵀ) i j := by
+  rw [FD.mdt_apply]
+  unfold eighValF
+  rw [sumTo_eq_sum]
+  refine Finset.sum_congr rfl fun k _ => ?_
+  by_cases hk : k.val < n - s
+  · rw [if_pos hk, hz k.val hk, h0]; rfl
+  · rw [if_neg hk]; rfl
+
+/-- two spec-meeting decompositions of the same matrix give the same root entries -/
+theorem eighValF_unique {n s : Nat} (invE : α → α) (h0 : invE 0 = 0) (B U U' : F α) (e e' : Nat → α)
+    (h : DsEighSpec n s B U e) (h' : DsEighSpec n s B U' e') (i j : Nat) (hi : i < n) (hj : j < n) :
+    eighValF n s invE U e i j = eighValF n s invE U' e' i j := by
+  have := spectral_fn_unique invE (toMat n B) (toMat n U) (toMat n U') (fun k => e k.val) (fun k => e' k.val)
+    h.ortho h.recon h'.ortho h'.recon
+  have e1 := eighValF_eq_matrix invE h0 U e h.dropped_zero ⟨i, hi⟩ ⟨j, hj⟩
+  have e2 := eighValF_eq_matrix invE h0 U' e' h'.dropped_zero ⟨i, hi⟩ ⟨j, hj⟩
+  simp only at e1 e2
+  rw [e1, e2, this]
+
+
+theorem sumTo_delta (K a : Nat) (ha : a < K) (g : Nat → α) :
+    sumTo K (fun k => (if a = k then 1 else 0) * g k) = g a := by
+  induction K with
+  | zero => omega
+  | succ m ih =>
+    rw [sumTo_succ]
+    by_cases h : a = m
+    · subst h
+      rw [sumTo_zero_fun _ _ (fun l hl => by rw [if_neg (by omega)]; ring), if_pos rfl]; ring
+    · rw [ih (by omega), if_neg h]; ring
+
+theorem padU_row_orthonormal {s N : Nat} (hs : s ≤ N) (U : F α) (hU : toMat s U * (toMat s U)ᵀ = 1) :
+    toMat N (padU s N U) * (toMat N (padU s N U))ᵀ = 1 := by
+  obtain ⟨K, rfl⟩ : ∃ K, N = K + s := ⟨N - s, by omega⟩
+  ext i j
+  rw [Matrix.mul_apply]
+  simp only [Matrix.transpose_apply, toMat]
+  rw [← sumTo_eq_sum (K + s) (fun k => padU s (K + s) U i.val k * padU s (K + s) U j.val k), sumTo_add]
+  unfold padU
+  simp only [Nat.add_sub_cancel]
+  have hiN := i.isLt
+  have hjN := j.isLt
+  -- second segment: columns K + l
+  have seg2 : sumTo s (fun l => (if K + l < K then (if i.val = s + (K + l) then (1 : α) else 0) else if i.val < s then U i.val (K + l - K) else 0) *
+      (if K + l < K then (if j.val = s + (K + l) then (1 : α) else 0) else if j.val < s then U j.val (K + l - K) else 0))
+      = sumTo s (fun l => (if i.val < s then U i.val l else 0) * (if j.val < s then U j.val l else 0)) := by
+    apply sumTo_congr
+    intro l hl
+    have e1 : ¬ (K + l < K) := by omega
+    simp only [if_neg e1, Nat.add_sub_cancel_left]
+  -- first segment: columns k < K
+  have seg1 : sumTo K (fun k => (if k < K then (if i.val = s + k then (1 : α) else 0) else if i.val < s then U i.val (k - K) else 0) *
+      (if k < K then (if j.val = s + k then (1 : α) else 0) else if j.val < s then U j.val (k - K) else 0))
+      = sumTo K (fun k => (if i.val = s + k then (1 : α) else 0) * (if j.val = s + k then (1 : α) else 0)) := by
+    apply sumTo_congr
+    intro l hl
+    simp only [if_pos hl]
+  rw [seg1, seg2, Matrix.one_apply]
+  by_cases hi : i.val < s
+  · have z1 : sumTo K (fun k => (if i.val = s + k then (1 : α) else 0) * (if j.val = s + k then (1 : α) else 0)) = 0 := by
+      apply sumTo_zero_fun
+      intro l hl
+      have : ¬ i.val = s + l := by omega
+      simp only [if_neg this]; ring
+    rw [z1, zero_add]
+    by_cases hj : j.val < s
+    · have h2 := congrFun (congrFun hU ⟨i.val, hi⟩) ⟨j.val, hj⟩
+      rw [Matrix.mul_apply] at h2
+      simp only [Matrix.transpose_apply, toMat] at h2
+      rw [← sumTo_eq_sum s (fun k => U i.val k * U j.val k)] at h2
+      simp only [if_pos hi, if_pos hj]
+      rw [h2, Matrix.one_apply]
+      simp only [Fin.ext_iff]
+    · simp only [if_neg hj]
+      rw [sumTo_zero_fun _ _ (fun l hl => by ring)]
+      have : ¬ i = j := by intro h; rw [h] at hi; exact hj hi
+      rw [if_neg this]
+  · have z2 : sumTo s (fun l => (if i.val < s then U i.val l else 0) * (if j.val < s then U j.val l else 0)) = 0 := by
+      apply sumTo_zero_fun
+      intro l hl
+      simp only [if_neg hi]; ring
+    rw [z2, add_zero]
+    have : sumTo K (fun k => (if i.val = s + k then (1 : α) else 0) * (if j.val = s + k then (1 : α) else 0))
+        = sumTo K (fun k => (if i.val - s = k then (1 : α) else 0) * (if j.val = s + k then (1 : α) else 0)) := by
+      apply sumTo_congr
+      intro l hl
+      by_cases h : i.val = s + l
+      · have h' : i.val - s = l := by omega
+        simp only [if_pos h, if_pos h']
+      · have h' : ¬ i.val - s = l := by omega
+        simp only [if_neg h, if_neg h']
+    rw [this, sumTo_delta K (i.val - s) (by omega)]
+    by_cases hij : i = j
+    · have : j.val = s + (i.val - s) := by rw [← hij]; omega
+      rw [if_pos hij, if_pos this]
+    · have : ¬ j.val = s + (i.val - s) := by intro h; apply hij; apply Fin.ext; omega
+      rw [if_neg hij, if_neg this]
+
+/-- the block decomposition `blockdiag(U, I)` of `blockdiag(R, 0)` meets the specification -/
+theorem padSpec {s N : Nat} (hs : s ≤ N) (R B U : F α) (e : Nat → α)
+    (hB : ∀ i j, B i j = if i < s ∧ j < s then R i j else 0) (h : DsEighSpec s s R U e) :
+    DsEighSpec N s B (padU s N U) (padE s N e) := by
+  refine ⟨mul_eq_one_comm.mp (padU_row_orthonormal hs U (mul_eq_one_comm.mp h.ortho)), ?_, ?_⟩
+  · ext i j
+    have hv := congrFun (congrFun (eighValF_pad hs (fun x => x) U e) i.val) j.val
+    have hm := eighValF_eq_matrix (n := N) (s := s) (fun x => x) rfl (padU s N U) (padE s N e)
+      (fun k hk => by unfold padE; rw [if_pos hk]) i j
+    rw [← hm, hv]
+    show _ = B i.val j.val
+    rw [hB]
+    by_cases hij : i.val < s ∧ j.val < s
+    · rw [if_pos hij, if_pos hij]
+      have hr := eighValF_eq_matrix (n := s) (s := s) (fun x => x) rfl U e (fun k hk => by omega) ⟨i.val, hij.1⟩ ⟨j.val, hij.2⟩
+      simp only at hr
+      rw [hr, h.recon]; rfl
+    · rw [if_neg hij, if_neg hij]
+  · intro k hk
+    unfold padE; rw [if_pos hk]
+
+
+/-- the matrix handed to `eigh`: statistic masked to the live block plus ridge on the live block -/
+def regA (n s : Nat) (ridge : α) (a : A2 α) : A2 α := tabM n fun i j => maskF s (rdM a) i j + ridge * eyeS s i j
+
+theorem eighRootA_def (kernel : Kernel α) (invE : α → α) (n s : Nat) (ridge : α) (a : A2 α) :
+    eighRootA kernel invE n s ridge a
+      = tabM n (eighValF n s invE (kernel n (regA n s ridge a)).1 (kernel n (regA n s ridge a)).2) := rfl
+
+/-- the kernel's answer for the call with input `a`, size `n`, `padding_start = s` meets the `eigh` specification -/
+def KernelMeetsSpec (kernel : Kernel α) (n s : Nat) (ridge : α) (a : A2 α) : Prop :=
+  DsEighSpec n s (rdM (regA n s ridge a)) (kernel n (regA n s ridge a)).1 (kernel n (regA n s ridge a)).2
+
+theorem eighRootA_kernel_indep (k1 k2 : Kernel α) (invE : α → α) (h0 : invE 0 = 0) (n s : Nat) (ridge : α) (a : A2 α)
+    (h1 : KernelMeetsSpec k1 n s ridge a) (h2 : KernelMeetsSpec k2 n s ridge a) :
+    eighRootA k1 invE n s ridge a = eighRootA k2 invE n s ridge a := by
+  rw [eighRootA_def, eighRootA_def]
+  apply tabM_congr
+  intro i j hi hj
+  exact eighValF_unique invE h0 _ _ _ _ _ h1 h2 i j hi hj
+
+theorem maskF_padSq {s N : Nat} (hs : s ≤ N) (a : A2 α) : maskF s (rdM (padSq s N a)) = maskF s (rdM a) := by
+  funext i j
+  unfold maskF padSq
+  by_cases h : i < s ∧ j < s
+  · rw [if_pos h, if_pos h, rdM_tabM, if_pos ⟨by omega, by omega⟩]; unfold padSqF; rw [if_pos h]
+  · rw [if_neg h, if_neg h]
+
+theorem eighRootA_padSq_of_spec {s N : Nat} (kernel : Kernel α) (invE : α → α) (h0 : invE 0 = 0) (hs : s ≤ N)
+    (ridge : α) (a : A2 α) (hN : KernelMeetsSpec kernel N s ridge (padSq s N a)) (hS : KernelMeetsSpec kernel s s ridge a) :
+    eighRootA kernel invE N s ridge (padSq s N a) = embed N (eighRootA kernel invE s s ridge a) := by
+  have hsupp : Supp s (fun i j => maskF s (rdM a) i j + ridge * (eyeS s i j : α)) := by
+    intro i j h
+    show maskF s (rdM a) i j + ridge * eyeS s i j = 0
+    rw [supp_eyeS s i j h]; unfold maskF; rw [if_neg (by omega)]; ring
+  have hregN : regA N s ridge (padSq s N a) = tabM N (fun i j => maskF s (rdM a) i j + ridge * (eyeS s i j : α)) := by
+    unfold regA; rw [maskF_padSq hs]
+  -- the block decomposition built from the kernel's answer for the unpadded matrix meets the spec for the padded one
+  have hpad : DsEighSpec N s (rdM (regA N s ridge (padSq s N a)))
+      (padU s N (kernel s (regA s s ridge a)).1) (padE s N (kernel s (regA s s ridge a)).2) := by
+    apply padSpec hs (rdM (regA s s ridge a)) _ _ _ _ hS
+    intro i j
+    rw [hregN]
+    unfold regA
+    rw [rdM_tabM, rdM_tabM]
+    by_cases h : i < s ∧ j < s
+    · rw [if_pos h, if_pos ⟨by omega, by omega⟩, if_pos h]
+    · rw [if_neg h]
+      by_cases h' : i < N ∧ j < N
+      · rw [if_pos h']; exact hsupp i j (by omega)
+      · rw [if_neg h']
+  rw [eighRootA_def, eighRootA_def]
+  unfold embed
+  apply tabM_congr
+  intro i j hi hj
+  rw [eighValF_unique invE h0 _ _ _ _ _ hN hpad i j hi hj, eighValF_pad hs, rdM_tabM]
+
+end PrecondVerif.BlockDiag
+namespace PrecondVerif.BlockDiag
+open Matrix
+variable {α : Type} [Field α] [LinearOrder α] [IsStrictOrderedRing α]
+
+/-- non-vacuity: for a zero statistic the regularised matrix is `diag(ridge,…,ridge,0,…,0)` and the exact diagonal solver
+`diagKernel` meets the specification (padded or not) -/
+theorem diagKernel_meetsSpec (n s : Nat) (hs : s ≤ n) (ridge : α) :
+    KernelMeetsSpec (diagKernel fun i => if i < s then ridge else 0) n s ridge (#[] : A2 α) := by
+  have hsum : ∀ (a b : Fin n) (c : Nat → α), (∑ k : Fin n, (if a.val + k.val + 1 = n then (1 : α) else 0) * c k.val *
+      (if b.val + k.val + 1 = n then (1 : α) else 0)) = if a = b then c (n - 1 - a.val) else 0 := by
+    intro a b c
+    rw [← sumTo_eq_sum n (fun k => (if a.val + k + 1 = n then (1 : α) else 0) * c k * (if b.val + k + 1 = n then (1 : α) else 0))]
+    have : sumTo n (fun k => (if a.val + k + 1 = n then (1 : α) else 0) * c k * (if b.val + k + 1 = n then (1 : α) else 0))
+        = sumTo n (fun k => (if n - 1 - a.val = k then (1 : α) else 0) * (c k * (if b.val + k + 1 = n then (1 : α) else 0))) := by
+      apply sumTo_congr
+      intro l hl
+      have ha := a.isLt
+      by_cases h : a.val + l + 1 = n
+      · have h' : n - 1 - a.val = l := by omega
+        simp only [if_pos h, if_pos h']; ring
+      · have h' : ¬ n - 1 - a.val = l := by omega
+        simp only [if_neg h, if_neg h']; ring
+    rw [this, sumTo_delta n (n - 1 - a.val) (by have := a.isLt; omega)]
+    by_cases hab : a = b
+    · have : b.val + (n - 1 - a.val) + 1 = n := by rw [← hab]; have := a.isLt; omega
+      rw [if_pos hab, if_pos this]; ring
+    · have : ¬ b.val + (n - 1 - a.val) + 1 = n := by
+        intro h; apply hab; apply Fin.ext; have := a.isLt; have := b.isLt; omega
+      rw [if_neg hab, if_neg this]; ring
+  refine ⟨?_, ?_, ?_⟩
+  · apply mul_eq_one_comm.mp
+    ext a b
+    rw [Matrix.mul_apply]
+    simp only [Matrix.transpose_apply, toMat, diagKernel]
+    have := hsum a b (fun _ => 1)
+    simp only [mul_one] at this
+    rw [this, Matrix.one_apply]
+  · ext a b
+    have hB : toMat n (rdM (regA n s ridge (#[] : A2 α))) a b = ridge * (if a.val = b.val ∧ a.val < s then 1 else 0) := by
+      show rdM (regA n s ridge (#[] : A2 α)) a.val b.val = _
+      unfold regA
+      rw [rdM_tabM]
+      have hin : a.val < n ∧ b.val < n := ⟨a.isLt, b.isLt⟩
+      simp only [if_pos hin]
+      have hz : maskF s (rdM (#[] : A2 α)) a.val b.val = 0 := by
+        unfold maskF rdM; simp
+      rw [hz, zero_add]; rfl
+    rw [hB, FD.mdt_apply]
+    simp only [toMat, diagKernel]
+    rw [hsum a b (fun k => if n - 1 - k < s then ridge else 0)]
+    have ha := a.isLt
+    by_cases hab : a = b
+    · simp only [if_pos hab]
+      have e1 : n - 1 - (n - 1 - a.val) = a.val := by omega
+      rw [e1]
+      by_cases h : a.val < s
+      · have h2 : a.val = b.val ∧ a.val < s := ⟨by rw [hab], h⟩
+        simp only [if_pos h, if_pos h2]; ring
+      · have h2 : ¬ (a.val = b.val ∧ a.val < s) := fun hh => h hh.2
+        simp only [if_neg h, if_neg h2]; ring
+    · have h2 : ¬ (a.val = b.val ∧ a.val < s) := fun hh => hab (Fin.ext hh.1)
+      simp only [if_neg hab, if_neg h2]; ring
+  · intro k hk
+    simp only [diagKernel]
+    rw [if_neg (by omega)]
 end PrecondVerif.BlockDiag
 
